@@ -74,6 +74,8 @@ DoReinit(st) == Out("ok", [st EXCEPT !.cert = [k \in CertKeys |-> IF st.cert[k] 
 (*         nsig) | forged (signed by kx) | unsigned                        *)
 (*  skip : the PEER sets skip_verification;  cn: the peer sets common_name *)
 (*  nid  : node-id hint: none | own (id of k's record) | other (id of ck)  *)
+(*         | bogus (an id no record carries; the storage may answer with   *)
+(*         not-found or with an empty set)                                 *)
 (*  pref : certificate preference cur | next | garbage | none              *)
 (***************************************************************************)
 \* records examined by the server-certificate gate
@@ -131,7 +133,7 @@ Apply(st, o) ==
 (* universes *)
 AuthClients == [op : {"Connect"}, kind : {"auth"}, k : CertKeys, ck : CertKeys, chain : {"b0", "b1", "foreign", "self"},
                 priv : BOOLEAN, nsig : Signers, stt : {NONE, "ok", "forged", "unsigned"}, skip : BOOLEAN,
-                nid : {NONE, "own", "other"}, pref : {"cur", "next", "garbage", NONE}, cn : BOOLEAN]
+                nid : {NONE, "own", "other", "bogus"}, pref : {"cur", "next", "garbage", NONE}, cn : BOOLEAN]
 MixedClients == {[c EXCEPT !.kind = m] : c \in {x \in AuthClients : ~x.cn /\ x.pref = "cur" /\ x.nid = NONE /\ x.stt = NONE},
                                           m \in {"mixedFA", "mixedAF"}}
 OtherClients == [op : {"Connect"}, kind : {"base", "fetch"}, k : CertKeys, ck : CertKeys, chain : {"self"},
